@@ -117,13 +117,17 @@ def statements(body):
     return out
 
 
+NOSTD = [False]      # which configuration `live` keeps: std (default) or no_std
+
+
 def live(stmts):
-    """drop statements compiled out in the std, hooks-off configuration"""
+    """drop statements compiled out in the selected configuration (std by default; hooks always off)"""
     out = []
+    off, on = ('#[cfg(feature="std")]', '#[cfg(not(feature="std"))]') if NOSTD[0] else ('#[cfg(not(feature="std"))]', '#[cfg(feature="std")]')
     for attrs, t in stmts:
-        if any(a in ('#[cfg(not(feature="std"))]', '#[cfg(unimock_verif)]') for a in attrs):
+        if any(a in (off, '#[cfg(unimock_verif)]') for a in attrs):
             continue
-        other = [a for a in attrs if a not in ('#[cfg(feature="std")]', '#[track_caller]', '#[inline]', '#[inline(never)]')]
+        other = [a for a in attrs if a not in (on, '#[track_caller]', '#[inline]', '#[inline(never)]')]
         if other:
             raise Unrecognised(f'attribute {other}')
         out.append(t)
@@ -201,6 +205,8 @@ def teardown_steps(src):
             return '.retOkIfNotOriginal'
         if cond == 'std::thread::panicking()' and ret_ok:
             return '.retOkIfPanicking'
+        if cond == 'unimock.panicked.locked(|panicked|*panicked)' and ret_ok:
+            return '.retOkIfPanicking'          # without std: this instance's own `panicked` flag stands in for thread::panicking()
         mm = re.fullmatch(r'Arc::strong_count\(&unimock\.shared_state\)(>=|>)(\d+)', cond)
         if mm and pan and 'cannotverifycalls' in then:
             k = int(mm.group(2)) - (1 if mm.group(1) == '>=' else 0)
@@ -453,6 +459,8 @@ def induce_steps(lib):
             out.append('.formatMsg')
         elif re.fullmatch(r'self\.shared_state\.panic_reasons\.locked\((?:move)?\|(\w+)\|\{?\1\.push\(error(?:\.clone\(\))?\);?\}?\)', w):
             out.append('.record')
+        elif re.fullmatch(r'\{?self\.panicked\.locked\(\|(\w+)\|\{?\*\1=true;?\}?\);?\}?', w):
+            out.append('.setOwnFlag')           # no_std only: the flag of THIS instance
         elif msgvar and w in (f'panic!("{{{msgvar}}}")', f'panic!("{{}}",{msgvar})'):
             out.append('.panicMsg')
         elif w in ('panic!("{error}")', 'panic!("{}",error)'):
@@ -873,6 +881,8 @@ def emit_builder(root):
 # ------------------------------------------------------------------ emit
 FALLBACK = {
     'teardown': '[.setTornDown, .dropHelper, .dropChain, .retOkIfNotOriginal, .retOkIfPanicking, .sampleStrong, .panicIfStrongGt 1, .panicIfOtherThread, .errIfReasons, .verify]',
+    'teardown_nostd': '[.setTornDown, .dropHelper, .dropChain, .retOkIfNotOriginal, .retOkIfPanicking, .sampleStrong, .panicIfStrongGt 1, .errIfReasons, .verify]',
+    'induce_nostd': '[.setOwnFlag, .formatMsg, .record, .panicMsg]',
     'drop': '[.retIfTornDown, .teardownIfVerifyInDrop]',
     'verify': '[.panicIfNotOriginal, .teardown]',
     'noverify': '[.panicIfNotOriginal, .clearVerifyInDrop]',
@@ -905,6 +915,14 @@ def main():
             notes.append(f'{key}: {e}')
 
     attempt('teardown', lambda: '[' + ', '.join(teardown_steps(td)) + ']')
+    def nostd(f):
+        NOSTD[0] = True
+        try:
+            return f()
+        finally:
+            NOSTD[0] = False
+    attempt('teardown_nostd', lambda: nostd(lambda: '[' + ', '.join(teardown_steps(td)) + ']'))
+    attempt('induce_nostd', lambda: nostd(lambda: induce_steps(lib)))
     attempt('drop', lambda: '[' + ', '.join(dsteps(fn_body(lib, r'impl\s+Drop\s+for\s+Unimock\s*\{\s*fn\s+drop\s*\(&mut\s+self\)\s*\{'))) + ']')
     attempt('verify', lambda: '[' + ', '.join(dsteps(fn_body(lib, r'pub\s+fn\s+verify\s*\(mut\s+self\)\s*\{'))) + ']')
     attempt('noverify', lambda: '[' + ', '.join(dsteps(fn_body(lib, r'pub\s+fn\s+no_verify_in_drop\s*\(mut\s+self\)\s*->\s*Self\s*\{'))) + ']')
@@ -946,9 +964,12 @@ def main():
     L.append('/-! GENERATED by tools/translate_control.py from /repo/src/{teardown,lib,eval}.rs — do not edit. -/')
     L.append('namespace Unimock.Generated')
     L.append('open Unimock.Gates')
-    for k in ('teardown', 'drop', 'verify', 'noverify', 'new', 'clone', 'nomocker', 'nomatch', 'dispatch', 'slots', 'errpath', 'push', 'cell'):
+    for k in ('teardown', 'drop', 'verify', 'noverify', 'new', 'clone', 'nomocker', 'nomatch', 'dispatch', 'slots', 'errpath', 'push', 'cell', 'teardown_nostd', 'induce_nostd'):
         L.append(f'def recognised_{k} : Bool := {b(got[k][1])}')
     L.append(f'def teardownSteps : List Step := {got["teardown"][0]}')
+    L.append('/-- the same two functions as compiled WITHOUT the std feature (`panicking` then reads: this instance\'s own `panicked` flag) -/')
+    L.append(f'def teardownStepsNoStd : List Step := {got["teardown_nostd"][0]}')
+    L.append(f'def inducePanicStepsNoStd : List EStep := {got["induce_nostd"][0]}')
     L.append(f'def dropSteps : List DStep := {got["drop"][0]}')
     L.append(f'def verifySteps : List DStep := {got["verify"][0]}')
     L.append(f'def noVerifySteps : List DStep := {got["noverify"][0]}')
